@@ -243,7 +243,7 @@ class Interp:
                 raise Undecided("unbound local %s" % n["name"])
             if str(rk).startswith("Ctor") or rk in ("Variant",):
                 return V(vname(n["res"]))
-            if rk in ("Const", "AssocConst", "Static"):
+            if rk in ("Const", "AssocConst", "Static") or str(rk).startswith(("Const", "AssocConst", "Static")):
                 # a constant / static of the analysed crate is its initialiser (arrays of literals, separators, tables)
                 if self.prog is not None and n["res"] in self.prog.fns and self.depth < 12:
                     ch = self.prog.hir(n["res"])
@@ -498,6 +498,18 @@ class Interp:
                 return some(args[0])
             if w.endswith(("Result::Ok",)):
                 return V("Result::Ok", [args[0]])
+        if isinstance(f, Opaque) and not args:
+            w = str(f.what)
+            if w.endswith(("Vec::new", "VecDeque::new")) or w.endswith("Vec<T>::new"):
+                return []
+            if w.endswith("String::new"):
+                return ""
+            if w.endswith(("HashMap::new", "HashMap<K, V>::new")):
+                return HMap()
+            if w.endswith(("BTreeMap::new", "BTreeMap<K, V>::new")):
+                return BMap()
+            if w.endswith(("HashSet::new", "BTreeSet::new", "HashSet<T>::new")):
+                return set()
         if isinstance(f, Opaque) and self.prog is not None and f.what in self.prog.fns:
             r = self.crate_call({"callee": f.what}, list(args))
             if r is not None:
@@ -623,6 +635,19 @@ class Interp:
             if m == "lines":
                 return recv.splitlines()
             return recv.lstrip() if m == "trim_start" else recv.rstrip()
+        if isinstance(recv, str) and len(n["args"]) == 1 and m in ("matches", "match_indices", "split_terminator", "rsplit", "splitn"):
+            a = self.ev(n["args"][0], env)
+            if isinstance(a, str) and a and m in ("matches", "match_indices"):
+                out, i_ = [], 0
+                while True:
+                    j_ = recv.find(a, i_)
+                    if j_ < 0:
+                        break
+                    out.append(a if m == "matches" else (len(recv[:j_].encode()), a))
+                    i_ = j_ + len(a)
+                return out
+            if isinstance(a, Closure) and m == "matches":
+                return [c_ for c_ in recv if self._bool(self.apply(a, [c_]), n)]
         if isinstance(recv, str) and len(n["args"]) == 2 and m == "replace":
             a, b = self.ev(n["args"][0], env), self.ev(n["args"][1], env)
             if isinstance(a, str) and isinstance(b, str):
@@ -651,6 +676,8 @@ class Interp:
             argv = [self.ev(a, env) for a in n["args"]]
             if any(isinstance(a, Opaque) for a in argv):
                 raise Undecided("map key is opaque")
+            if argv and isinstance(argv[0], list):
+                argv[0] = tuple(argv[0])        # a Vec used as a key
             srt = (lambda it_: sorted(it_)) if isinstance(recv, BMap) else (lambda it_: list(it_))
             if m == "entry" and len(argv) == 1:
                 return Entry(recv, argv[0])
@@ -1077,6 +1104,14 @@ class Interp:
     def fcall(self, n, env):
         if str(n.get("callee", "")).endswith("hint::must_use") and len(n["args"]) == 1:
             return self.ev(n["args"][0], env)
+        if str(n.get("mac", "")) == "vec" and not str(n.get("callee", "")).endswith("from_elem"):
+            # vec![a, b, ..]: the array literal inside the expansion, whatever allocation idiom the standard library uses
+            from hirq import walk_exprs as _we
+            arrs = [y for y in _we(n) if y["k"] == "Array"]
+            if arrs:
+                return [self.ev(e, env) for e in arrs[0]["es"]]
+            if str(n.get("callee", "")).endswith("Vec::new"):
+                return []
         cal = str(n.get("callee", ""))
         if cal.endswith("IntoIterator::into_iter") and len(n["args"]) == 1:
             v = self.ev(n["args"][0], env)
